@@ -109,7 +109,7 @@ if p2:
 if p3:
     lines.append('* **Phase 3** (`mutation/phase3_same.txt`): the %d mutants the harness cannot tell from the original, against the contracts: %d flagged, %d not (as it should be for equivalent mutants).' % (sum(p3.values()), p3.get('CAUGHT', 0), p3.get('MISSED', 0)))
 if p1b:
-    lines.append('* **Phase 1b / 2b** (`mutation/phase1b.txt`, `phase1c.txt`, `phase2b.txt`, `phase2c.txt`; bucket.go, views.go, designdoc.go, collection+query.go, payload.go, queryable.go - files the harness says little about, so every mutant that passes the suite goes to the contracts): %d mutants, %d killed by the suite, %d do not build, %d pass the suite; of those that pass, %d were flagged by the contracts and %d were not (%d not run: the retry loop of `inTransaction`, whose mutants re-verify every writer and take ten minutes each). The unflagged ones were read one by one: code without a contract by decision (URL parsing, `OpenBucketIn`, logging, retry back-off, the query iterator's Close), the map/reduce pipeline and `ProcessParsed` (11.7, not reached), `payload` methods on shapes no caller constructs (raw payloads), over-eager re-indexing (harmless), and cache handling that `findView.reuses-only-same-source` makes harmless. The PutDDoc unchanged-check (a changed design document silently not written) and the open modes of OpenBucket were real blind spots and got clauses.' % (sum(p1b.values()), p1b.get('killed-by-suite', 0), p1b.get('nobuild', 0), p1b.get('passes-suite', 0), p2b.get('CAUGHT', 0), p2b.get('MISSED', 0), p1b.get('passes-suite', 0) - sum(p2b.values())))
+    lines.append('* **Phase 1b / 2b** (`mutation/phase1b.txt`, `phase1c.txt`, `phase2b.txt`, `phase2c.txt`; bucket.go, views.go, designdoc.go, collection+query.go, payload.go, queryable.go - files the harness says little about, so every mutant that passes the suite goes to the contracts): %d mutants, %d killed by the suite, %d do not build, %d pass the suite; of those that pass, %d were flagged by the contracts and %d were not (%d not run: the retry loop of `inTransaction`, whose mutants re-verify every writer and take ten minutes each). The unflagged ones were read one by one: code without a contract by decision (URL parsing, `OpenBucketIn`, logging, retry back-off, the Close of the query iterator), the map/reduce pipeline and `ProcessParsed` (11.7, not reached), `payload` methods on shapes no caller constructs (raw payloads), over-eager re-indexing (harmless), and cache handling that `findView.reuses-only-same-source` makes harmless. The PutDDoc unchanged-check (a changed design document silently not written) and the open modes of OpenBucket were real blind spots and got clauses.' % (sum(p1b.values()), p1b.get('killed-by-suite', 0), p1b.get('nobuild', 0), p1b.get('passes-suite', 0), p2b.get('CAUGHT', 0), p2b.get('MISSED', 0), p1b.get('passes-suite', 0) - sum(p2b.values())))
 block('MUTATION', '\n'.join(lines))
 
 nr = json.load(open(root + '/notreached.json'))
